@@ -23,6 +23,7 @@ import DSymVerif.Proofs.CoversWired
 import DSymVerif.Proofs.CoversIso
 import DSymVerif.Proofs.CoversComplete
 import DSymVerif.Proofs.CoversUniversal
+import DSymVerif.Proofs.CoversPi1Table
 import DSymVerif.Proofs.DSetExamples
 
 namespace DSymVerif.C05
@@ -450,7 +451,7 @@ example : ValidSym (DSymData.ofSimple ex2) ∧ (DSymData.ofSimple ex2).view.isCo
     presentation `⟨1..n | relators⟩` (≅ the textbook orbifold group by C09).  By
     `covers_exactly_the_coverings` (coverings ↔ conjugacy classes of subgroups) this is the universal
     covering.  (That the model of `fundamental_group` applied to `c` itself returns a presentation
-    of the trivial group is NOT proved — Spec clause.) -/
+    of the trivial group: `finite_universal_cover_simply_connected` below.) -/
 theorem finite_universal_cover_trivial_subgroup (ds : DSymData) (hs : ValidSym ds) (hsz : 1 ≤ ds.size)
     (hdim : 1 ≤ ds.dim) (c : DSymData) (hc : finiteUniversalCover ds = .ok c) :
     ∃ (f : FundGroup) (t : Cosets.Table) (v : List (List Int))
@@ -464,6 +465,85 @@ theorem finite_universal_cover_trivial_subgroup (ds : DSymData) (hs : ValidSym d
 
 example : ValidSym (DSymData.ofSimple ex2) ∧ 1 ≤ (DSymData.ofSimple ex2).size ∧
     1 ≤ (DSymData.ofSimple ex2).dim := ⟨ex2_validSym, by decide, by decide⟩
+
+/-! ### 5c. the covering-space correspondence: π1(cover) ≅ stabiliser of a sheet
+
+`FGP.TGroup s` is the textbook orbifold fundamental group of C09 (one generator `xT s d i` per
+chamber facet; pairing, spanning-tree and 2-orbit relators); `rhoT` is its monodromy representation
+on the rows of a valid coset table of the presentation `fundamental_group` returns
+(Proofs/CoversAction.lean: crossing facet `(d,i)` moves row `k` to `k · edge_to_word(d,i)`). -/
+
+/-- **cover_group_is_stabiliser.**  Let `ds` be a connected valid symbol (size, dim ≥ 1), `tab` a
+    valid transitive coset table of the presentation returned by `fundamental_group(ds)` and `c` a
+    covering of `ds` with `rows(tab)` sheets whose operations are those of the table (`TableOps` —
+    what `cover_for_table` builds, see `covers_one_entry_per_conjugacy_class`).  Then the
+    projection induces a homomorphism `φ : π1(c) → π1(ds)` of the textbook orbifold groups — the
+    generator of facet `(x,i)` of `c` goes to `q(x) · x(π x, i) · q(op_i x)⁻¹`, a conjugate of the
+    generator of the projected facet — which is **injective** and whose **range is the stabiliser
+    of row 0** under the monodromy representation; so `π1(c) ≃* Stab(row 0)`.
+    (Proofs/CoversPi1*.lean: `φ` is defined in a gauge `q` along the spanning tree of `c`; the
+    inverse direction is the voltage-graph action of `π1(ds)` on `sheets × π1(c)`, which respects
+    the 2-orbit relators because degrees are preserved: the walk round a 2-orbit of `ds` to the
+    power `v` lifts to the walk round the 2-orbit of `c` to the power `v_c`.) -/
+theorem cover_group_is_stabiliser (ds c : DSymData) (hs : ValidSym ds) (hsz : 1 ≤ ds.size)
+    (hdim : 1 ≤ ds.dim) (hconn : ds.view.isConnected = true) (f : FundGroup)
+    (hf : fundamentalGroup ds = .ok f) (tab : SpecC11.Tab) (subs : List (List Int))
+    (hv : CosetP.Valid tab f.nrGenerators f.relators subs) (cov : IsCoverOf ds c tab.size)
+    (hops : TableOps ds c f.edgeToWord tab f.nrGenerators) :
+    (∃ (φ : FGP.TGroup c →* FGP.TGroup ds) (q : Nat → FGP.TGroup ds),
+      (∀ x i, FGP.FacetR c x i →
+        φ (FGP.xT c x i) = q x * FGP.xT ds (cproj ds.size x) i * (q (c.dset.opU i x))⁻¹) ∧
+      Function.Injective φ ∧
+      φ.range = (MulAction.stabilizer (Equiv.Perm (Fin tab.size)) (⟨0, hv.pos⟩ : Fin tab.size)).comap
+        (rhoT hs hdim hf hv)) ∧
+    Nonempty (FGP.TGroup c ≃*
+      ((MulAction.stabilizer (Equiv.Perm (Fin tab.size)) (⟨0, hv.pos⟩ : Fin tab.size)).comap
+        (rhoT hs hdim hf hv))) :=
+  ⟨cover_group_iso_stabiliser hs hsz hdim hconn hf hv cov hops,
+   cover_group_mulEquiv_stabiliser hs hsz hdim hconn hf hv cov hops⟩
+
+/-- **covers_groups_are_stabilisers.**  For every connected valid symbol and every bound `k`: the
+    textbook orbifold group of every entry `c` of the model of `covers(ds, k)` embeds into that of
+    `ds` with range the stabiliser of row 0 of the coset table the entry was built from (the tables
+    yielded by `coset_tables`, in order) — together with `covers_one_entry_per_conjugacy_class`:
+    the groups of the entries are, up to conjugacy, exactly the subgroups of index `≤ k`.
+    (This statement has only the base hypotheses; it shows that those of
+    `cover_group_is_stabiliser` are met by every entry.) -/
+theorem covers_groups_are_stabilisers (ds : DSymData) (hs : ValidSym ds) (hsz : 1 ≤ ds.size)
+    (hdim : 1 ≤ ds.dim) (hconn : ds.view.isConnected = true) (k fuel : Nat) :
+    ∃ (f : FundGroup) (hf : fundamentalGroup ds = .ok f),
+      ((BT.dfs (btProblem f.nrGenerators (expandedRelatorSet f.relators) k) (height k)
+          (.ok (Cosets.Table.new f.nrGenerators))).length ≤ fuel →
+        ∃ cs, Covers.covers ds k fuel = .ok cs ∧
+          List.Forall₂ (fun x c => ∃ (t : Cosets.Table) (v : List (List Int))
+              (hv : CosetP.Valid (CosetInvP.viewTab v) f.nrGenerators f.relators []),
+              x = Outcome.ok t ∧ t.view = .ok v ∧ coverForTableC ds t f.edgeToWord = .ok c ∧
+              ∃ φ : FGP.TGroup c →* FGP.TGroup ds, Function.Injective φ ∧
+                φ.range = (MulAction.stabilizer (Equiv.Perm (Fin (CosetInvP.viewTab v).size))
+                    (⟨0, hv.pos⟩ : Fin (CosetInvP.viewTab v).size)).comap (rhoT hs hdim hf hv))
+            (cosetTables f.nrGenerators f.relators k fuel) cs) :=
+  covers_groups hs hsz hdim hconn k fuel
+
+example : ValidSym (DSymData.ofSimple ex2) ∧ 1 ≤ (DSymData.ofSimple ex2).size ∧
+    1 ≤ (DSymData.ofSimple ex2).dim ∧ (DSymData.ofSimple ex2).view.isConnected = true :=
+  ⟨ex2_validSym, by decide, by decide, by decide +kernel⟩
+
+/-- **finite_universal_cover_simply_connected.**  Whenever the model of
+    `finite_universal_cover(ds)` returns `c` for a connected valid symbol, the textbook orbifold
+    group of `c` is trivial (it is isomorphic to the stabiliser of row 0 of the coset table of the
+    trivial subgroup, which is `⊥`: `finite_universal_cover_trivial_subgroup`), and therefore the
+    model of `fundamental_group(c)` returns a presentation of the trivial group
+    (C09 `returned_group_is_textbook_group`). -/
+theorem finite_universal_cover_simply_connected (ds : DSymData) (hs : ValidSym ds) (hsz : 1 ≤ ds.size)
+    (hdim : 1 ≤ ds.dim) (hconn : ds.view.isConnected = true) (c : DSymData)
+    (hc : finiteUniversalCover ds = .ok c) :
+    (∀ x : FGP.TGroup c, x = 1) ∧
+      ∃ fc, fundamentalGroup c = .ok fc ∧ ∀ y : FGP.MGroup fc, y = 1 :=
+  finiteUniversalCover_simply_connected hs hsz hdim hconn hc
+
+example : ValidSym (DSymData.ofSimple ex2) ∧ 1 ≤ (DSymData.ofSimple ex2).size ∧
+    1 ≤ (DSymData.ofSimple ex2).dim ∧ (DSymData.ofSimple ex2).view.isConnected = true :=
+  ⟨ex2_validSym, by decide, by decide, by decide +kernel⟩
 
 /-- every fibre of the projection of an `n`-sheeted cover has exactly `n` chambers -/
 theorem cover_fibres (sz b n : Nat) (hb1 : 1 ≤ b) (hb2 : b ≤ sz) :
